@@ -1,4 +1,4 @@
-CONSTANTS Threads = {1, 2, 3, 4, 11, 12, 13, 14}
+CONSTANTS Threads = {1, 2, 3, 4, 5, 11, 12, 13, 14}
           Programs = {}
           NotifyUnderLock = TRUE
           Delegates = {}
